@@ -143,13 +143,21 @@ func (c *Cookie) SetDomain(domain string) {
 // SetPath sets cookie path.
 func (c *Cookie) SetPath(path string) {
 	c.buf = append(c.buf[:0], path...)
-	c.path = normalizePath(c.path, c.buf)
+	c.path = normalizeCookiePath(c.path, c.buf)
 }
 
 // SetPathBytes sets cookie path.
 func (c *Cookie) SetPathBytes(path []byte) {
 	c.buf = append(c.buf[:0], path...)
-	c.path = normalizePath(c.path, c.buf)
+	c.path = normalizeCookiePath(c.path, c.buf)
+}
+
+// normalizeCookiePath cleans a cookie path like normalizePath but leaves percent-escapes
+// alone: the attribute is written as it is, a decoded ';' would end it.
+func normalizeCookiePath(dst, src []byte) []byte {
+	dst = addLeadingSlash(dst[:0], src)
+	dst = append(dst, src...)
+	return cleanPath(dst)
 }
 
 // SetExpire sets cookie expiration time.
